@@ -21,15 +21,15 @@
                                     janet_symcache_init: I (janet_symbol) -> n (new object) | o (existing); G (janet_symbol_gen) -> g<hex of
                                     the new symbol>; D (janet_symbol_deinit) -> d; X -> x<cap>,<count>,<deleted>,<counter hex>{,<slot>:<hex|->}
                                     (every non-empty slot; `-` = tombstone); `!` and stop when the model hits the NULL-bucket assertion
-   iter <i> <j>                  -> one char as `row`, computed by the ITERATIVE mirrors of janet_equals / janet_compare
-                                    (explicit traversal stack, Value/Traverse.lean) followed by the maximal stack depth
+   iterrow <i>                   -> as `row`, computed by the ITERATIVE mirrors of janet_equals / janet_compare (explicit traversal
+                                    stack, Value/Traverse.lean; `?` = fuel exhausted), then a space and the deepest stack seen
 -/
 import Driver.Util
 import JanetModel.Value.Struct
 import JanetModel.Value.RobinDup
 import JanetModel.Value.StringLoop
 import JanetModel.Value.SymGen
--- import JanetModel.Value.Traverse
+import JanetModel.Value.Traverse
 open Driver JanetModel.Value
 
 abbrev V := JVal F64
@@ -163,6 +163,19 @@ def step (st : Array V) (toks : List String) : Array V × String :=
       | some slots => (st, match structFind slots key with | some i => toString i | none => "-1")
       | none => (st, "bad-op")
     | _, _ => (st, "bad-op")
+  | ["iterrow", i] =>
+    match i.toNat? >>= (st[·]?) with
+    | some a =>
+      let cells := st.toList.map fun b =>
+        let (c, d) := Traverse.compareLoopD (Traverse.weight a + 1) a b [] 0
+        let ch := match c, Traverse.equalsIter a b with
+          | some .lt, some e => if e then 'L' else '<'
+          | some .eq, some e => if e then '=' else 'Z'
+          | some .gt, some e => if e then 'G' else '>'
+          | _, _ => '?'
+        (ch, d)
+      (st, String.ofList (cells.map (·.1)) ++ " " ++ toString (cells.foldl (fun m c => max m c.2) 0))
+    | none => (st, "bad-id")
   | "symhist" :: ops =>
     let dump (g : SymCache.GState) : String :=
       let c := g.cache
